@@ -23,11 +23,12 @@ typedef struct kcfg_s {
   int restart;
   int snappy, bloom, use_mmap, reuse_logs;
   int cache;           /* 0 default 8MiB, 1 zero capacity, 2 tiny (4 KiB) */
-  int cmp;             /* 0 bytewise, 1 reverse bytewise (custom, no separator callbacks) */
+  int cmp;             /* 0 bytewise, 1 reverse bytewise, 2 case-insensitive (byte-different keys can be equal) */
   int paranoid;
   int max_open_files;
   double l1;           /* H2 level-1 byte budget (0 = pinned 10 MiB) */
   int raw;             /* H1 */
+  int universe;        /* key universe for this configuration (-1 = the driver's default) */
 } kcfg_t;
 
 void kcfg_set_base(kcfg_t *c, int base);
@@ -52,7 +53,10 @@ extern int kv_nkeys;                 /* size of the key universe in use */
 extern const char *kv_keys[KV_MAXKEYS + 2];   /* + 2 never-written probe keys */
 extern size_t kv_keylen[KV_MAXKEYS + 2];
 void kv_set_universe(int which);     /* 0: {"", a, ab, b}  1: 3 keys {a, ab, b}  2: with 300-byte key */
-int kv_order(const kcfg_t *c, int *order);  /* indices 0..kv_nkeys-1 in comparator order; returns n */
+int kv_order(const kcfg_t *c, int *order);  /* class representatives in comparator order; returns n */
+int kv_order_n(const kcfg_t *c, int *order, int n);
+extern int kv_rep_tab[KV_MAXKEYS + 2];      /* key index -> representative of its comparator-equivalence class */
+void kv_set_classes(const kcfg_t *c);
 
 /* value size classes */
 enum { VS_EMPTY = 0, VS_SHORT = 1, VS_1K = 2, VS_70K = 3, VS_1M = 4 };
@@ -64,8 +68,10 @@ int kv_vparse(const void *data, size_t len, int *vid, int *sz, unsigned char *sc
 /* ---------------- model ---------------- */
 
 typedef struct kmodel_s {
-  int vid[KV_MAXKEYS];           /* 0 = absent, else id of the write that produced the value */
+  int vid[KV_MAXKEYS];           /* 0 = absent, else id of the write that produced the value;
+                                    indexed by the comparator-equivalence class representative */
   unsigned char sz[KV_MAXKEYS];
+  unsigned char spell[KV_MAXKEYS]; /* key index (spelling) the newest write of the class used */
 } kmodel_t;
 
 uint64_t kmodel_hash(const kmodel_t *m);
